@@ -11,8 +11,9 @@
     * `:CHAIN` line: creates a user chain or flushes it; no-op on a builtin chain (--noflush)
     * `-A` and `-I`: chain must exist; the jump target, if it is not an extension/standard target,
       must be an existing chain; `--match-set` sets must exist; NO de-duplication
-    * `-X`: chain must exist, be empty at that point and unreferenced (on an empty builtin chain it
-      succeeds without visible effect, as iptables-nft does)
+    * `-X`: chain must exist, be a user chain, be empty at that point and unreferenced
+      (`-X` of a builtin chain is refused as iptables-legacy does; iptables-nft accepts it for an empty
+      base chain in some batches — galaxy never issues it and the kernel comparison leaves it out)
     * the batch is all-or-nothing.
 -/
 import Galaxy.Model.Tbl
@@ -170,8 +171,8 @@ def applyCmd (setOk : String → Bool) (T : Table) : Cmd → Except Err Table
     match Tbl.get T c with
     | none => .error .noChain
     | some rules =>
-      if rules ≠ [] then .error .busy
-      else if isBuiltin c then .ok T     -- nf_tables: an empty base chain is dropped and re-created on demand
+      if isBuiltin c then .error .builtin
+      else if rules ≠ [] then .error .busy
       else if referenced T c then .error .busy
       else .ok (Tbl.erase T c)
 
@@ -660,11 +661,17 @@ def foreignBind (h : Host) (s : Sock) : Host × Bool :=
 def foreignClose (h : Host) (s : Sock) : Host :=
   if s ∈ h.allHeld ∨ s ∈ h.orphan then h else ⟨h.bound.filter (· ≠ s), h.held, h.orphan⟩
 
+/-- the Go runtime finalizes an orphaned socket (unreachable `net.Listener`): it is closed at an
+    arbitrary later time -/
+def finalizeOrphan (h : Host) (s : Sock) : Host :=
+  if s ∈ h.orphan then ⟨h.bound.filter (· ≠ s), h.held, h.orphan.filter (· ≠ s)⟩ else h
+
 inductive HostOp where
   | open (pod : String) (random : Bool) (reqs : List Req) (choices : List Nat)
   | close (pod : String)
   | fbind (s : Sock)
   | fclose (s : Sock)
+  | gc (s : Sock)
   deriving Repr
 
 def hostStep (h : Host) : HostOp → Host
@@ -672,6 +679,7 @@ def hostStep (h : Host) : HostOp → Host
   | .close pod => closeHostports h pod
   | .fbind s => (foreignBind h s).1
   | .fclose s => foreignClose h s
+  | .gc s => finalizeOrphan h s
 
 /-! ## The concrete hash: first `hashTrunc` characters of base32(sha256(input)) -/
 
